@@ -34,7 +34,7 @@ class Task:
     __slots__ = (
         "sim", "tid", "thread", "lock", "state", "wake_at", "wait_obj",
         "timed_out", "exc", "exc_tb", "name", "stall_until", "sleep_factor",
-        "role",
+        "role", "exit_t", "exit_seq", "start_t",
     )
 
     def __init__(self, sim, tid, thread):
@@ -53,6 +53,9 @@ class Task:
         self.role = None
         self.stall_until = 0.0
         self.sleep_factor = 1.0
+        self.exit_t = None
+        self.exit_seq = None
+        self.start_t = sim.now
 
 
 DEFAULT_CFG = {
@@ -102,6 +105,7 @@ class Sim:
         self.line_preempts = 0
         self.counters = {}
         self.harness_error = None
+        self.nopreempt = 0
         self._set_line_gap()
 
     # ------------------------------------------------------------ decisions
@@ -170,10 +174,13 @@ class Sim:
         self.tasks.append(t)
         thread._sim_task = t
         if self.namer is not None:
+            self.nopreempt += 1
             try:
                 t.role = self.namer(thread, t)
             except Exception:  # pragma: no cover
                 t.role = None
+            finally:
+                self.nopreempt -= 1
         if self.cfg["sleep_jitter_pct"]:
             t.sleep_factor = 1.0 + self.draw("sched", 9) / 8.0 * self.cfg["sleep_jitter_pct"] / 100.0
         orig_run = thread.run
@@ -193,6 +200,8 @@ class Sim:
                 sim.record("thread_died", task=t.tid, role=t.role, exc=type(e).__name__, msg=str(e)[:200])
             finally:
                 t.state = "done"
+                t.exit_t = sim.now
+                t.exit_seq = sim.seq
                 sim.log("exit", t.tid)
                 sim._wake_obj(thread)
                 try:
@@ -385,7 +394,7 @@ class Sim:
 
     def on_line(self):
         """Called from the sys.monitoring LINE callback of instrumented code."""
-        if self.line_left < 0 or self.killed:
+        if self.line_left < 0 or self.killed or self.nopreempt:
             return
         t = getattr(_rt.current_thread(), "_sim_task", None)
         if t is None or t is not self.cur or t.state != "runnable":
